@@ -389,6 +389,34 @@ func exploreTyped(r *core.Run, eng typed.Engine, s *rs.Schema, t *rs.Type, repr 
 				if k := st2.key(); !seen[k] {
 					seen[k] = true
 					next = append(next, calls)
+				} else if !st2.finished && !st2.built {
+					// merged away: every repeated key is still injected once from this very path (what the
+					// builder remembers about its keys may depend on the route they came by), then built
+					for _, c2 := range enabledTyped(st2, keys) {
+						_, kn, _ := strings.Cut(c2, ":")
+						kn, _, _ = strings.Cut(kn, "/")
+						isDup := false
+						for _, k := range keys {
+							if k.name == kn {
+								for _, d := range st2.done {
+									if d == k.own {
+										isDup = true
+									}
+								}
+							}
+						}
+						if !isDup {
+							continue
+						}
+						probe := append(append([]string(nil), calls...), c2)
+						if canFinish(st2, keys) {
+							probe = append(probe, "Finish", "Build")
+						}
+						pfs, _, _ := runTyped(eng, s, t, repr, keys, probe)
+						trans++
+						r.Traces.Add(1)
+						r.Report("typed-calls", TCase{eng.Name(), s.Name, t.Name, repr, probe}, pfs)
+					}
 				}
 			}
 		}
